@@ -45,7 +45,10 @@ top:
 		if 0 < len(tv) {
 			if name, _ := tv[0].(string); 0 < len(name) {
 				if af := NewFn(name); af != nil {
-					af.Args = tv[1:]
+					// The list belongs to the plan, which may be executing
+					// in other goroutines as well. Compile a copy.
+					af.Args = make([]any, len(tv)-1)
+					copy(af.Args, tv[1:])
 					af.compile()
 					value = af
 					goto top
